@@ -28,7 +28,7 @@ def _body(rec, ix):
 
 
 def _corner(ix):
-    return len(ix) == L and ix[0] % 3 == 0
+    return len(ix) == L and hs.sel(ix[0], 3) == 0
 
 
 def check(ix: List[int]) -> bool:
